@@ -260,7 +260,7 @@ func (s *Super) caseCPU() int {
 	if s.Prop.CaseCPU > 0 {
 		return s.Prop.CaseCPU
 	}
-	return 300
+	return 900
 }
 
 func cpuExcerpt(log string) string {
